@@ -313,7 +313,7 @@ func (g *Gen) addObl(kind, label, goal string, pos token.Pos, desc string, cl *C
 		name += "[" + label + "]"
 	}
 	o := &Obligation{Name: name, Kind: kind, Goal: goal, NFacts: len(g.facts), Blk: g.curBlock, Pos: g.prog.Prog.Fset.Position(pos), Desc: desc, Clause: cl, Gen: g, FuncKey: g.key, Mode: g.fmode, Props: g.con.Props}
-	if only := g.con.Opts["only"]; only != "" && kind != only && kind != "cover" {
+	if only := g.con.Opts["only"]; only != "" && kind != "cover" && !inList(only, kind) {
 		// a variant that looks at one kind of obligation only (e.g. lock-order): the others belong
 		// to the function's main contract and are not generated twice
 		return o
@@ -1718,7 +1718,11 @@ func (g *Gen) checkAtCallAnchors() {
 					continue
 				}
 				key, _ := g.calleeKey(ci.Common())
-				if key != "" && (strings.HasSuffix(key, "."+ac.Callee) || strings.HasSuffix(key, "/"+ac.Callee) || key == ac.Callee) {
+				name := ac.Callee
+				if i := strings.LastIndex(name, "#"); i > 0 {
+					name = name[:i]
+				}
+				if key != "" && (strings.HasSuffix(key, "."+name) || strings.HasSuffix(key, "/"+name) || key == name) {
 					found = true
 				}
 			}
@@ -2162,4 +2166,14 @@ func sortedGlobals[V any](m map[*ssa.Global]V) []*ssa.Global {
 	}
 	sort.Slice(out, func(i, j int) bool { return out[i].String() < out[j].String() })
 	return out
+}
+
+// inList: kind is one of the comma-separated names.
+func inList(list, kind string) bool {
+	for _, k := range strings.Split(list, ",") {
+		if strings.TrimSpace(k) == kind {
+			return true
+		}
+	}
+	return false
 }
